@@ -131,8 +131,11 @@ class World:
         self.sim = sim
 
     def copy(self):
-        return World(self.wf, dict(self.files), copy.deepcopy(self.conf), copy.deepcopy(self.tracked), copy.deepcopy(self.hashes),
-                     dict(self.logs), copy.deepcopy(self.sim), copy.deepcopy(self.pool))
+        w = World(self.wf, dict(self.files), copy.deepcopy(self.conf), copy.deepcopy(self.tracked), copy.deepcopy(self.hashes),
+                  dict(self.logs), copy.deepcopy(self.sim), copy.deepcopy(self.pool))
+        if hasattr(self, "hashing_intent"):
+            w.hashing_intent = self.hashing_intent
+        return w
 
     def clock(self):
         return max([r for r, _ in self.files.values()] + [0])
